@@ -9,10 +9,11 @@
 //! blocking point that still cannot proceed *parks*: `recv` returns `Err` with
 //! `verif_sched::PARKED` set (the harness stops that logical thread there), `send` cuts the path
 //! unless `SEND_BLOCK_IS_FAILURE` asks for an assertion instead.
-use core::mem::MaybeUninit;
+//! Layout: control words in a padding-free heap cell, payload in an uninitialised heap array (see the
+//! dashmap model for why).
 use verif_sched as vs;
 
-pub const QCAP: usize = 16;
+pub const QCAP: usize = 4;
 
 pub static mut TICKS_GRANTED: u32 = 0;
 pub static mut SEND_BLOCK_IS_FAILURE: bool = false;
@@ -25,81 +26,92 @@ pub struct RecvError;
 #[derive(PartialEq, Eq, Clone, Copy, Debug)]
 pub enum TryRecvError { Empty, Disconnected }
 
-pub struct Chan<T> {
-    buf: [MaybeUninit<T>; QCAP],
-    seq: [u32; QCAP],
-    head: usize,
-    len: usize,
-    cap: usize,
-    senders: u32,
-    receivers: u32,
-    is_tick: bool,
-    class: u8,
+/// control words, all u64 (no padding)
+pub struct Ctrl {
+    seq: [u64; QCAP],
+    head: u64,
+    len: u64,
+    cap: u64,
+    senders: u64,
+    receivers: u64,
+    is_tick: u64,
+    class: u64,
+    /// the consumer is blocked in recv() (the sequential model makes recv return Err and the thread body end;
+    /// the drop of its Receiver that follows must NOT count as the consumer going away)
+    parked: u64,
     // ghost
-    pub sent: u32,
-    pub received: u32,
-    pub last_received_seq: u32,
-    pub fifo_ok: bool,
+    pub sent: u64,
+    pub received: u64,
+    pub last_received_seq: u64,
+    pub fifo_ok: u64,
 }
 
-pub struct Sender<T> { ch: *mut Chan<T> }
-pub struct Receiver<T> { ch: *mut Chan<T> }
+/// `bufp` points to a small cell holding the address of the slot array, so that a harness can re-point the queue
+/// at slots living on ITS OWN STACK (`vk_use_storage`): CBMC keeps the enum discriminant of a queued command
+/// constant only when the slot is a typed stack object; through a (byte-array typed) heap slot the worker would
+/// explore every command arm for every dequeued command.
+pub struct Sender<T> { c: *mut Ctrl, bufp: *mut *mut [Option<T>; QCAP] }
+pub struct Receiver<T> { c: *mut Ctrl, bufp: *mut *mut [Option<T>; QCAP] }
 unsafe impl<T: Send> Send for Sender<T> {}
 unsafe impl<T: Send> Sync for Sender<T> {}
 unsafe impl<T: Send> Send for Receiver<T> {}
 unsafe impl<T: Send> Sync for Receiver<T> {}
 
-fn new_chan<T>(cap: usize, is_tick: bool) -> *mut Chan<T> {
+fn new_chan<T>(cap: usize, is_tick: bool) -> (*mut Ctrl, *mut *mut [Option<T>; QCAP]) {
     if cap > QCAP { vs::out_of_bound(); }
-    let c = Chan {
-        buf: unsafe { MaybeUninit::uninit().assume_init() },
-        seq: [0; QCAP], head: 0, len: 0, cap: if cap > QCAP { QCAP } else { cap },
-        senders: 1, receivers: 1, is_tick, class: vs::CL_NONE,
-        sent: 0, received: 0, last_received_seq: 0, fifo_ok: true,
+    let c = Ctrl {
+        seq: [0; QCAP], head: 0, len: 0, cap: (if cap > QCAP { QCAP } else { cap }) as u64,
+        senders: 1, receivers: 1, is_tick: is_tick as u64, class: vs::CL_NONE as u64, parked: 0,
+        sent: 0, received: 0, last_received_seq: 0, fifo_ok: 1,
     };
-    Box::leak(Box::new(c)) as *mut Chan<T>
+    // payload slots: `Option<T>` written with TYPED stores, slot by slot.  (A `MaybeUninit<T>` array is an array of
+    // unions: every store / load is a byte copy and the enum discriminant of a queued command is no longer a
+    // constant for CBMC - the worker then explores every command arm for every dequeued command.)
+    let buf = Box::into_raw(Box::<[Option<T>; QCAP]>::new_uninit()) as *mut [Option<T>; QCAP];
+    let mut i = 0;
+    while i < QCAP { unsafe { core::ptr::write((buf as *mut Option<T>).add(i), None); } i += 1; }
+    (Box::into_raw(Box::new(c)), Box::into_raw(Box::new(buf)))
 }
 
 pub fn bounded<T>(cap: usize) -> (Sender<T>, Receiver<T>) {
-    let c = new_chan::<T>(cap, false);
-    (Sender { ch: c }, Receiver { ch: c })
+    let (c, bufp) = new_chan::<T>(cap, false);
+    (Sender { c, bufp }, Receiver { c, bufp })
 }
 pub fn tick(_d: std::time::Duration) -> Receiver<std::time::Instant> {
-    let c = new_chan::<std::time::Instant>(0, true);
-    Receiver { ch: c }
+    let (c, bufp) = new_chan::<std::time::Instant>(0, true);
+    Receiver { c, bufp }
 }
 
-impl<T> Chan<T> {
-    #[inline(always)]
-    fn push(&mut self, v: T) {
-        let i = (self.head + self.len) % QCAP;
-        self.buf[i] = MaybeUninit::new(v);
-        self.sent += 1;
-        self.seq[i] = self.sent;
-        self.len += 1;
-    }
-    #[inline(always)]
-    fn pop(&mut self) -> T {
-        let i = self.head;
-        let v = unsafe { self.buf[i].assume_init_read() };
-        if self.seq[i] != self.last_received_seq + 1 { self.fifo_ok = false; }
-        self.last_received_seq = self.seq[i];
-        self.head = (self.head + 1) % QCAP;
-        self.len -= 1;
-        self.received += 1;
-        v
-    }
+#[inline(always)]
+fn push<T>(c: &mut Ctrl, buf: *mut [Option<T>; QCAP], v: T) {
+    let i = ((c.head + c.len) % QCAP as u64) as usize;
+    unsafe { core::ptr::write((buf as *mut Option<T>).add(i), Some(v)); }
+    c.sent += 1;
+    c.seq[i] = c.sent;
+    c.len += 1;
+}
+#[inline(always)]
+fn pop<T>(c: &mut Ctrl, buf: *mut [Option<T>; QCAP]) -> T {
+    let i = c.head as usize;
+    let v = match unsafe { core::ptr::read((buf as *mut Option<T>).add(i)) } { Some(v) => v, None => { vs::infeasible(); unsafe { core::mem::zeroed() } } };
+    unsafe { core::ptr::write((buf as *mut Option<T>).add(i), None); }
+    if c.seq[i] != c.last_received_seq + 1 { c.fifo_ok = 0; }
+    c.last_received_seq = c.seq[i];
+    c.head = (c.head + 1) % QCAP as u64;
+    c.len -= 1;
+    c.received += 1;
+    v
 }
 
 impl<T> Sender<T> {
     #[allow(clippy::mut_from_ref)]
-    fn c(&self) -> &mut Chan<T> { unsafe { &mut *self.ch } }
+    fn c(&self) -> &mut Ctrl { unsafe { &mut *self.c } }
     pub fn send(&self, msg: T) -> Result<(), SendError<T>> {
         vs::schedule_point(vs::S_Q_SEND);
         if self.c().receivers == 0 { return Err(SendError(msg)); }
         if self.c().len >= self.c().cap {
-            vs::note_blocking(self.c().class);
-            if let Some(h) = unsafe { vs::BLOCK_HOOK } { h(self.c().class); }
+            vs::note_blocking(self.c().class as u8);
+            if let Some(h) = unsafe { vs::BLOCK_HOOK } { h(self.c().class as u8); }
             if self.c().receivers == 0 { return Err(SendError(msg)); }
             if self.c().len >= self.c().cap {
                 // nobody can make room: the sender would wait forever
@@ -107,7 +119,7 @@ impl<T> Sender<T> {
                 vs::infeasible();
             }
         }
-        self.c().push(msg);
+        push(self.c(), unsafe { *self.bufp }, msg);
         Ok(())
     }
     /// used by the `select!` model: `None` = the operation is not ready (queue full)
@@ -115,25 +127,35 @@ impl<T> Sender<T> {
         vs::schedule_point(vs::S_Q_SEND);
         if self.c().receivers == 0 { return Some(Err(SendError(msg))); }
         if self.c().len >= self.c().cap { core::mem::forget(msg); return None; }
-        self.c().push(msg);
+        push(self.c(), unsafe { *self.bufp }, msg);
         Some(Ok(()))
     }
-    pub fn vk_chan(&self) -> &mut Chan<T> { self.c() }
-    pub fn vk_set_class(&self, c: u8) { self.c().class = c; }
-    pub fn len(&self) -> usize { self.c().len }
+    pub fn vk_chan(&self) -> ChanView<'_, T> { ChanView { c: self.c(), buf: unsafe { *self.bufp } } }
+    /// another handle on the receiving end (for a harness that lets a fresh body of the consumer thread continue
+    /// where a parked one stopped); does not change the receiver count
+    pub fn vk_receiver_handle(&self) -> Receiver<T> { Receiver { c: self.c, bufp: self.bufp } }
+    pub fn vk_set_class(&self, c: u8) { self.c().class = c as u64; }
+    /// re-point the (empty) queue at caller-owned slots (a local array of the harness function)
+    pub fn vk_use_storage(&self, slots: *mut [Option<T>; QCAP]) {
+        assert!(self.c().len == 0);
+        let mut i = 0;
+        while i < QCAP { unsafe { core::ptr::write((slots as *mut Option<T>).add(i), None); } i += 1; }
+        unsafe { *self.bufp = slots; }
+    }
+    pub fn len(&self) -> usize { self.c().len as usize }
     pub fn is_empty(&self) -> bool { self.c().len == 0 }
     pub fn is_full(&self) -> bool { self.c().len >= self.c().cap }
-    pub fn capacity(&self) -> Option<usize> { Some(self.c().cap) }
+    pub fn capacity(&self) -> Option<usize> { Some(self.c().cap as usize) }
 }
-impl<T> Clone for Sender<T> { fn clone(&self) -> Self { self.c().senders += 1; Sender { ch: self.ch } } }
+impl<T> Clone for Sender<T> { fn clone(&self) -> Self { self.c().senders += 1; Sender { c: self.c, bufp: self.bufp } } }
 impl<T> Drop for Sender<T> { fn drop(&mut self) { let c = self.c(); if c.senders > 0 { c.senders -= 1; } } }
 
 impl<T> Receiver<T> {
     #[allow(clippy::mut_from_ref)]
-    fn c(&self) -> &mut Chan<T> { unsafe { &mut *self.ch } }
+    fn c(&self) -> &mut Ctrl { unsafe { &mut *self.c } }
     pub fn recv(&self) -> Result<T, RecvError> {
         vs::schedule_point(vs::S_Q_RECV);
-        if self.c().is_tick {
+        if self.c().is_tick != 0 {
             unsafe {
                 if TICKS_GRANTED > 0 { TICKS_GRANTED -= 1; return Ok(core::mem::zeroed()); }
                 vs::PARKED = true;
@@ -142,37 +164,48 @@ impl<T> Receiver<T> {
         }
         if self.c().len == 0 {
             if self.c().senders == 0 { return Err(RecvError); }
-            if let Some(h) = unsafe { vs::BLOCK_HOOK } { h(self.c().class); }
+            if let Some(h) = unsafe { vs::BLOCK_HOOK } { h(self.c().class as u8); }
             if self.c().len == 0 {
-                if self.c().senders > 0 { unsafe { vs::PARKED = true; } }
+                if self.c().senders > 0 { unsafe { vs::PARKED = true; } self.c().parked = 1; }
                 return Err(RecvError);
             }
         }
-        Ok(self.c().pop())
+        Ok(pop(self.c(), unsafe { *self.bufp }))
     }
     pub fn try_recv(&self) -> Result<T, TryRecvError> {
         if self.c().len == 0 { return Err(if self.c().senders == 0 { TryRecvError::Disconnected } else { TryRecvError::Empty }); }
-        Ok(self.c().pop())
+        Ok(pop(self.c(), unsafe { *self.bufp }))
     }
     pub fn iter(&self) -> Iter<'_, T> { Iter { r: self } }
-    pub fn vk_chan(&self) -> &mut Chan<T> { self.c() }
-    pub fn vk_set_class(&self, c: u8) { self.c().class = c; }
-    pub fn len(&self) -> usize { self.c().len }
+    pub fn vk_chan(&self) -> ChanView<'_, T> { ChanView { c: self.c(), buf: unsafe { *self.bufp } } }
+    pub fn vk_set_class(&self, c: u8) { self.c().class = c as u64; }
+    pub fn len(&self) -> usize { self.c().len as usize }
     pub fn is_empty(&self) -> bool { self.c().len == 0 }
 }
-impl<T> Clone for Receiver<T> { fn clone(&self) -> Self { self.c().receivers += 1; Receiver { ch: self.ch } } }
-impl<T> Drop for Receiver<T> { fn drop(&mut self) { let c = self.c(); if c.receivers > 0 { c.receivers -= 1; } } }
+impl<T> Clone for Receiver<T> { fn clone(&self) -> Self { self.c().receivers += 1; Receiver { c: self.c, bufp: self.bufp } } }
+impl<T> Drop for Receiver<T> {
+    fn drop(&mut self) {
+        let c = self.c();
+        if c.parked != 0 { c.parked = 0; return; }   // the thread is still blocked in recv(): the receiver stays alive
+        if c.receivers > 0 { c.receivers -= 1; }
+    }
+}
 
 pub struct Iter<'a, T> { r: &'a Receiver<T> }
 impl<'a, T> Iterator for Iter<'a, T> { type Item = T; fn next(&mut self) -> Option<T> { self.r.recv().ok() } }
 
-impl<T> Chan<T> {
-    pub fn vk_len(&self) -> usize { self.len }
-    pub fn vk_cap(&self) -> usize { self.cap }
-    pub fn vk_receivers(&self) -> u32 { self.receivers }
-    pub fn vk_senders(&self) -> u32 { self.senders }
-    pub fn vk_peek(&self, k: usize) -> Option<&T> {
-        if k < self.len { Some(unsafe { self.buf[(self.head + k) % QCAP].assume_init_ref() }) } else { None }
+/// harness view of a channel
+pub struct ChanView<'a, T> { c: &'a mut Ctrl, buf: *mut [Option<T>; QCAP] }
+impl<'a, T> ChanView<'a, T> {
+    pub fn vk_len(&self) -> usize { self.c.len as usize }
+    pub fn vk_cap(&self) -> usize { self.c.cap as usize }
+    pub fn vk_receivers(&self) -> u32 { self.c.receivers as u32 }
+    pub fn vk_senders(&self) -> u32 { self.c.senders as u32 }
+    pub fn sent(&self) -> u32 { self.c.sent as u32 }
+    pub fn received(&self) -> u32 { self.c.received as u32 }
+    pub fn fifo_ok(&self) -> bool { self.c.fifo_ok != 0 }
+    pub fn vk_peek(&self, k: usize) -> Option<&'a T> {
+        if (k as u64) < self.c.len { unsafe { (*self.buf)[((self.c.head + k as u64) % QCAP as u64) as usize].as_ref() } } else { None }
     }
 }
 
